@@ -28,7 +28,7 @@ class GaussianAccountant(IAccountant):
 
     def step(self, *, noise_multiplier: float, sample_rate: float):
         if len(self.history) >= 1:
-            last_noise_multiplier, last_sample_rate, num_steps = self.history.pop()
+            last_noise_multiplier, last_sample_rate, num_steps = self.history[-1]
             if (
                 last_noise_multiplier != noise_multiplier
                 or last_sample_rate != sample_rate
